@@ -93,6 +93,69 @@ func c19Ctx() *plush.Context {
 	return ctx
 }
 
+// c19LiveIterators: several iterators are alive at once, made at any time and asked in any
+// order (nested loops left by break do that). Each is a sequence of its own: what one has
+// handed out, or that it has ended, changes nothing about another; an ended one stays ended.
+func c19LiveIterators(b *core.B) {
+	type live struct {
+		it    nexter
+		what  string
+		want  []int
+		pos   int
+		asked int
+	}
+	for round := 0; round < 300; round++ {
+		r := core.Derive(b.Seed, 0xC19A, uint64(round))
+		if !b.Begin(fmt.Sprintf("live iterators, round %d", round)) {
+			continue
+		}
+		var ls []*live
+		var log []string
+		for step := 0; step < 60; step++ {
+			if len(ls) == 0 || r.Chance(1, 4) {
+				a, c := r.Range(-2, 4), r.Range(0, 6)
+				l := &live{}
+				switch r.Intn(3) {
+				case 0:
+					l.it, l.what = iterators.Range(a, c), fmt.Sprintf("Range(%d, %d)", a, c)
+					l.want, _ = expectSeq(a, c, false)
+				case 1:
+					l.it, l.what = iterators.Between(a, c), fmt.Sprintf("Between(%d, %d)", a, c)
+					l.want, _ = expectSeq(a+1, c-1, false)
+				default:
+					l.it, l.what = iterators.Until(c), fmt.Sprintf("Until(%d)", c)
+					l.want, _ = expectSeq(0, c-1, false)
+				}
+				ls = append(ls, l)
+				log = append(log, fmt.Sprintf("#%d = %s", len(ls)-1, l.what))
+				continue
+			}
+			k := r.Intn(len(ls))
+			l := ls[k]
+			if l.asked > len(l.want)+3 {
+				continue
+			}
+			l.asked++
+			v := l.it.Next()
+			log = append(log, fmt.Sprintf("#%d.Next() = %v", k, v))
+			var want interface{}
+			if l.pos < len(l.want) {
+				want = l.want[l.pos]
+				l.pos++
+			}
+			if v != want {
+				if len(log) > 24 {
+					log = log[len(log)-24:]
+				}
+				b.Violate("live-iterators|one-changes-another", fmt.Sprintf("#%d is %s and must yield %v now (nil = ended), got %v\n%s", k, l.what, want, v, strings.Join(log, "\n")))
+				return
+			}
+		}
+		b.NonTrivialStr("live-iterators", fmt.Sprint(round))
+		b.Count("live-iterators:rounds")
+	}
+}
+
 func c19Run(b *core.B) {
 	small := []int{}
 	lim := 8
@@ -106,6 +169,9 @@ func c19Run(b *core.B) {
 	all := append(append([]int{}, small...), ext...)
 	var idx int64
 	mine := func() bool { idx++; return b.Mine(idx) }
+	if b.Batch == 0 {
+		c19LiveIterators(b)
+	}
 
 	// range / between / until, direct calls
 	for _, a := range all {
